@@ -1148,6 +1148,7 @@ impl World for IovecWorld {
         let base_bytes = ByteArena::num_live_bytes();
         let base_reg = owning_iovec::verif::live_totals();
         let at = std::cell::Cell::new(0usize);
+        let also: std::cell::RefCell<Vec<(usize, Fail)>> = Default::default();
         let mut effective = 0u64;
         let mut produced = false;
         let mut consumed = false;
@@ -1174,8 +1175,18 @@ impl World for IovecWorld {
                 log.str(op.k);
                 for idx in 0..N_OBJ {
                     if st.objs[idx].is_some() {
-                        st.check_obj(idx, op.k, targets.contains(&idx), &mut log, stats)
-                            .map_err(|f| (i, f))?;
+                        let target = targets.contains(&idx);
+                        st.check_obj(idx, op.k, target, &mut log, stats).map_err(|f| {
+                            // Right after clone/take, or on an object the operation was not
+                            // aimed at, any discrepancy is (also) a failure of snapshot
+                            // independence.
+                            if (matches!(op.k, "clone" | "take") || !target) && f.prop != "C20" && f.prop != "C05" {
+                                also.borrow_mut().push((i, Fail { prop: f.prop, inv: f.inv, detail: f.detail.clone() }));
+                                (i, Fail { prop: "C20", inv: if matches!(op.k, "clone" | "take") { "C20.wrong_after_clone_or_take" } else { "C20.sibling_changed" }, detail: format!("{} [{}]", f.detail, f.inv) })
+                            } else {
+                                (i, f)
+                            }
+                        })?;
                     }
                 }
                 st.check_held(&mut log).map_err(|f| (i, f))?;
@@ -1206,7 +1217,11 @@ impl World for IovecWorld {
             Ok(())
         }));
 
-        let mut extra: Vec<Violation> = Vec::new();
+        let mut extra: Vec<Violation> = also
+            .into_inner()
+            .into_iter()
+            .map(|(i, f)| Violation { prop: f.prop, inv: f.inv.to_string(), detail: f.detail, at_op: i, key: String::new() })
+            .collect();
         let violation = match result {
             Ok(Ok(())) => {
                 let chunks = ByteArena::num_live_chunks();
